@@ -1,6 +1,7 @@
 """C05 - Conflicts are detected and conciliated exactly as the strategy says (structural clauses)."""
 import ast
 from ..model import own_nodes, AnalysisError
+from ..defuse import comp_view, cond_atoms
 from ..paths import factmap, call_text, returns, must_call
 from ..callgraph import CallGraph
 from ..absval import EnumEval
@@ -27,12 +28,15 @@ def run(P, R):
         u = P.unit(q)
         comps = [c for c in own_nodes(u.node) if isinstance(c, (ast.GeneratorExp, ast.ListComp))]
         ok = False
+        A = 'each(self.applications.values())'
+        PR = 'each(%s.processes.values())' % A
         for c in comps:
-            its = [ast.unparse(g.iter) for g in c.generators]
-            conds = ' and '.join(ast.unparse(i) for g in c.generators for i in g.ifs)
-            whole = conds + ' ' + ast.unparse(c.elt)
-            if its == ['self.applications.values()', 'application.processes.values()'] and \
-                    'application.rules.managed' in conds and 'process.conflicting()' in whole:
+            cv = comp_view(u, c)        # closed form: independent of binder names and of `if` vs `and` placement
+            whole = cv['conds'] | cond_atoms([ast.parse(cv['elt'], mode='eval').body]) if isinstance(cv['elt'], str) \
+                else cv['conds']
+            if cv['iters'] == ['self.applications.values()', A + '.processes.values()'] and \
+                    (A + '.rules.managed', True) in whole and \
+                    ((PR + '.conflicting()', True) in whole or cv['elt'] == PR):
                 ok = True
         R.check(r1, ok, '%s scans the processes of managed applications only' % q, 'managed|%s' % q, u.loc(),
                 '%s does not restrict the conflict scan to `application.rules.managed` over all applications and '
@@ -93,7 +97,13 @@ def run(P, R):
         R.check(r3, got.get(m) == TABLE[m], '%s -> %s' % (m, TABLE[m]), 'dispatch|%s' % m, cc.loc(),
                 'conciliate_conflicts maps %s to %s instead of %s' % (m, got.get(m), TABLE[m]))
     ap = [c for c in own_nodes(cc.node) if isinstance(c, ast.Call) and call_text(c) == 'instance.conciliate']
-    ok = len(ap) == 1 and [ast.unparse(a) for a in ap[0].args] == [cc.node.args.args[2].arg]
+    # the application may be written once after the dispatch or once per branch of it
+    def covers(c, m):
+        ks = [ev.const(f.node.comparators[0]) for f in fm.at(c) if isinstance(f.node, ast.Compare)
+              and ast.unparse(f.node.left) == 'strategy' and f[1]]
+        return not ks or m in ks
+    ok = bool(ap) and all([ast.unparse(a) for a in c.args] == [cc.node.args.args[2].arg] for c in ap) and \
+        all(any(covers(c, m) for c in ap) for m in members)
     R.check(r3, ok, 'the chosen strategy is applied to the given conflicts', 'dispatch|apply', cc.loc(),
             'conciliate_conflicts does not call instance.conciliate(conflicts)')
     me = P.unit('ConciliationState._master_enter')
